@@ -208,7 +208,7 @@ def opt_admissible(opt):
     return f[opt[1]] > f[opt[0]] and f[opt[3]] > f[opt[2]]
 
 
-def judge_mask(pym, x, m, opt, vec=None):
+def judge_mask(pym, x, m, opt, vec=None, band_=False):
     """Compare what the active set returned with the reference.
     Returns ('inadmissible', None) | ('ok', mask list) | ('bad', violation)."""
     n = len(x)
@@ -221,7 +221,7 @@ def judge_mask(pym, x, m, opt, vec=None):
         return 'bad', {'check': 'active_set_mask', 'signature': {'check': 'active_set_mask', 'cause': 'not_a_bool_mask'},
                        'detail': {'x': x, 'options': dict(zip(OPT_NAMES, opt)), 'returned': repr(m)[:200]}}
     lr, ur = float(opt[0]), float(opt[1])
-    if agg.mask_ok(x, mask, lr, ur, kl, kh):
+    if agg.mask_ok(x, mask, lr, ur, kl, kh, band_):
         return 'ok', mask
     # root cause: smallest subset of non-default options that still fails on the same vector
     active = [i for i in range(4) if opt[i] != DEFAULT_OPT[i]]
@@ -353,6 +353,7 @@ def exec_aset(pym, case):
             obs.append('inadmissible:near_tie_in_generic_table')
             continue
         const = bool(np.max(x) == np.min(x))
+        xband = agg.band(x, float(rel[0]), float(rel[1]))   # exact rational band, once per (vector, rel pair)
         for la in case['lower_amts']:
             for ua in case['upper_amts']:
                 opt = [rel[0], rel[1], la, ua]
@@ -365,7 +366,7 @@ def exec_aset(pym, case):
                 m = make_aset(pym, opt)(xin)
                 states += 1
                 checks += 1
-                st, res = judge_mask(pym, x, m, opt, vec)
+                st, res = judge_mask(pym, x, m, opt, vec, xband)
                 if not np.array_equal(xin, x):
                     st, res = 'bad', {'check': 'active_set_mutates_input',
                                       'signature': {'check': 'active_set_mutates_input'}, 'detail': {'x': x, 'after': xin}}
